@@ -39,6 +39,7 @@ def read_stub(text, target_ns=None):
             except Exception as e:
                 out["unresolved"].append(("import", ast.unparse(node), repr(e)))
     tdc = out["tdclasses"]
+    all_entries = []
     for node in tree.body:
         if isinstance(node, ast.ClassDef) and node.bases:
             total = True
@@ -49,10 +50,8 @@ def read_stub(text, target_ns=None):
             for st_ in node.body:
                 if isinstance(st_, ast.AnnAssign) and isinstance(st_.target, ast.Name):
                     fields[st_.target.id] = st_.annotation
-            entry = {"bases": [ast.unparse(b) for b in node.bases], "total": total, "fields": fields,
-                     "dump": ast.dump(node)}
-            if node.name in tdc and tdc[node.name]["dump"] != entry["dump"]:
-                out["dupes"].append(node.name)
+            entry = {"bases": [ast.unparse(b) for b in node.bases], "total": total, "fields": fields}
+            all_entries.append((node.name, entry))
             tdc[node.name] = entry
 
     def provided(name):
@@ -75,6 +74,19 @@ def read_stub(text, target_ns=None):
             return src, StubError(kind, f"{src!r}: {type(e).__name__}: {e}")
 
     out["ev"] = ev
+    # two classes of one name collide only if they differ *structurally* (union member order inside a field is free)
+    sigs = {}
+    for name, entry in all_entries:
+        fs = []
+        for k, v in sorted(entry["fields"].items()):
+            try:
+                c = canon_of(ev(v, where="typeddict-class-body")[1], {"tdclasses": tdc, "dupes": [], "ns": ns}, None, True)
+            except Exception:
+                c = ast.unparse(v)
+            fs.append((k, c))
+        sigs.setdefault(name, set()).add((tuple(entry["bases"]), entry["total"], tuple(fs)))
+    out["dupes"] = sorted(n for n, ss in sigs.items() if len(ss) > 1)
+    out["unresolved"] = [u for i, u in enumerate(out["unresolved"]) if u not in out["unresolved"][:i]]
     # class-body annotations of generated TypedDict classes also use names
     for name, c in tdc.items():
         for b in c["bases"]:
